@@ -375,23 +375,26 @@ class Zeroconf(QuietLogger):
         info.set_server_if_missing()
         replaced = self.registry.async_get_info_name(info.key)
         self.registry.async_update(info)
-        if replaced is not None and replaced is not info:
+        if replaced is not None:
             # Answers built from the replaced ServiceInfo may still be waiting in
-            # the multicast queues, they would advertise the old SRV/TXT after the update
-            outdated = [replaced.dns_pointer(), replaced.dns_service(), replaced.dns_text()]
-            # and the addresses the host no longer has
+            # the multicast queues, they would advertise the old SRV/TXT after the
+            # update, and the addresses the host no longer has. They are dropped
+            # by name: a ServiceInfo that was changed in place and handed in again
+            # cannot tell what its records were. The host's records that other
+            # services advertise stay (the ones the new ServiceInfo has as well do
+            # not: they are announced again at once, a queued copy would go out
+            # with the replaced TTL)
             assert replaced.server_key is not None
-            # (also the ones the new ServiceInfo has as well: they are announced
-            # again at once, a queued copy would go out with the replaced TTL)
-            current: Set[DNSRecord] = set()
+            shared: Dict[DNSRecord, DNSRecord] = {}
             for other in self.registry.async_get_infos_server(replaced.server_key):
                 if other is not info:
-                    current.update(other.get_address_and_nsec_records())
-            outdated.extend(replaced.get_address_and_nsec_records() - current)
+                    shared.update((record, record) for record in other.get_address_and_nsec_records())
+            outdated: List[DNSRecord] = []
             if not self.registry.async_get_infos_type(replaced.type.lower()):
                 outdated.append(self._service_type_enumeration_pointer(replaced.type))
-            self.out_queue.async_remove_records(outdated)
-            self.out_delay_queue.async_remove_records(outdated)
+            for queue in (self.out_queue, self.out_delay_queue):
+                queue.async_remove_service_records(replaced.key, replaced.server_key, shared)
+                queue.async_remove_records(outdated)
         return asyncio.ensure_future(self._async_broadcast_service(info, _REGISTER_TIME, None))
 
     async def async_get_service_info(
@@ -501,19 +504,18 @@ class Zeroconf(QuietLogger):
         broadcast_addresses = not bool(entries)
         # Answers for this service that are still waiting in the multicast
         # queues would otherwise be sent with their full TTL after the goodbye
-        withdrawn: List[DNSRecord] = [info.dns_pointer(), info.dns_service(), info.dns_text()]
-        if broadcast_addresses:
-            withdrawn.extend(info.get_address_and_nsec_records())
-        else:
-            # the addresses only this service had on the shared host
-            still_used: Set[DNSRecord] = set()
-            for other in entries:
-                still_used.update(other.get_address_and_nsec_records())
-            withdrawn.extend(info.get_address_and_nsec_records() - still_used)
+        # (by name: the caller may have changed the ServiceInfo in place since the
+        # answers were queued). The host's records that another service still
+        # advertises stay
+        still_used: Dict[DNSRecord, DNSRecord] = {}
+        for other in entries:
+            still_used.update((record, record) for record in other.get_address_and_nsec_records())
+        withdrawn: List[DNSRecord] = []
         if not self.registry.async_get_infos_type(info.type.lower()):
             withdrawn.append(self._service_type_enumeration_pointer(info.type))
-        self.out_queue.async_remove_records(withdrawn)
-        self.out_delay_queue.async_remove_records(withdrawn)
+        for queue in (self.out_queue, self.out_delay_queue):
+            queue.async_remove_service_records(info.key, info.server_key, still_used)
+            queue.async_remove_records(withdrawn)
         # The packet is built now: the caller may register the same object
         # again, under another name, while the goodbyes are still going out
         goodbye = asyncio.ensure_future(
